@@ -63,7 +63,7 @@ def emit_one(g, gi, inputs, ctx):
         rules.append(txt)
     decl = 'parser %%s(n%d, terms(%s), nterms(%s), rules(\n  %s\n));' % (g.root, ', '.join(tref), ', '.join('n%d' % i for i in range(len(g.nts))), ',\n  '.join(rules))
     o.append('constexpr ' + decl % 'p')
-    o.append('inline const auto& rt() { static const ' + decl % 'q' + ' return q; }')
+    o.append('inline const auto& rt() { static const auto* q = new ' + (decl % 'q').replace('parser q(', 'parser(', 1).rstrip(';') + '; return *q; }')     # really constructed at run time
     lines = []
     for k, (d, opt) in enumerate(inputs):
         lit = eg.cstr(d.decode('latin-1'))
